@@ -36,7 +36,7 @@ ENTRIES = {
         "design_ref": "DESIGN.md §4",
     },
     "C03": {
-        "text": "Invariant theorem over all reachable states of the pool model: a live checkout that only waits for another request's connection attempt and whose channel is still empty is queued for its origin and the origin's attempt-in-progress marker is set - so whenever the marker goes away (attempt succeeded, failed, cancelled or abandoned at any point of any history) no waiter is left with an empty channel; with a delivered connection its next poll takes it, with a closed channel it gets an error (C03_waiter_only_while_attempt_in_flight, C03_waiter_poll). Step-level theorems for every state: the marker's owner going away releases every queued waiter (sender dropped = wake-up), a released pure waiter resolves with an error, a released dialer carries on, a checkout whose attempts have terminated never polls Pending. Second invariant over all reachable states (marker owner): whenever an origin's marker is in place, exactly the checkout that placed it (same attempt id) still runs - alive, or continued by a delayed-drop task - so a waiting request always waits for an attempt that exists (C03_marker_has_running_owner, C03_waiter_waits_for_running_attempt); nobody else cancels the marker (C03_only_owner_cancels). Proving it exposed a third defect (a stale marker holder cancelled a later attempt's marker), fixed in 2d583d3. Not proved globally: that a live pure waiter's channel is never in the receiver-gone state, and fairness of the runtime (checked by the monitors on the runs). Trace monitors: lost wake-up, stranded waiter (marker gone), waiter failed while its attempt is in flight, resolved dial not consumed, drain + probe phase. Three stranding defects found and fixed.",
+        "text": "Invariant theorem over all reachable states of the pool model: a live checkout that only waits for another request's connection attempt and whose channel is still empty is queued for its origin and the origin's attempt-in-progress marker is set - so whenever the marker goes away (attempt succeeded, failed, cancelled or abandoned at any point of any history) no waiter is left with an empty channel; with a delivered connection its next poll takes it, with a closed channel it gets an error (C03_waiter_only_while_attempt_in_flight, C03_waiter_poll). Step-level theorems for every state: the marker's owner going away releases every queued waiter (sender dropped = wake-up), a released pure waiter resolves with an error, a released dialer carries on, a checkout whose attempts have terminated never polls Pending. Second invariant over all reachable states (marker owner): whenever an origin's marker is in place, exactly the checkout that placed it (same attempt id) still runs - alive, or continued by a delayed-drop task - so a waiting request always waits for an attempt that exists (C03_marker_has_running_owner, C03_waiter_waits_for_running_attempt); nobody else cancels the marker (C03_only_owner_cancels). Proving it exposed a third defect (a stale marker holder cancelled a later attempt's marker), fixed in 2d583d3. Third invariant (a live pure waiter's channel is never receiver-gone or absent) and the composition C03_pending_waiter_waits_for_running_attempt: in every reachable state a pure waiter that polls Pending has an empty channel, is queued, the marker is in place and its owner runs; in every other case its poll resolves. Not proved: fairness of the runtime, i.e. that the running owner is eventually polled to completion (the drain phase of the runs checks it). Trace monitors: lost wake-up, stranded waiter (marker gone), waiter failed while its attempt is in flight, resolved dial not consumed, drain + probe phase. Three stranding defects found and fixed.",
         "note": 'Trusted: Lean kernel; hand-written pool model tied to the real ConnectionPoolService by per-op differential runs (result, marker set, waiter queues, idle lists, dial and drop counters); tokio oneshot/scheduler semantics assumed; step-level theorems hold for every state, the global ownership invariant is stated in DESIGN.md as future work where not yet proved.',
         "design_ref": "DESIGN.md §4",
     },
